@@ -34,6 +34,7 @@ class Tree:
         self.n_paths = 0
         self.terms = {}
         self.params = {}
+        self.assumptions = {}
 
     def insert(self, trace, term):
         cur = self.root
@@ -114,6 +115,8 @@ def unfold(session, name, program, max_events=30, tasks_return=False, elem_kinds
             term = 'blocked:' + b.what
         encoded.update(it.encoded)
         tree.insert(w.trace, term)
+        for c in w.assumptions:
+            tree.assumptions[c.sexpr()] = c
         return term
 
     ex.explore(harness, fuel=fuel)
@@ -489,7 +492,7 @@ class Encoder:
                 dv = z3.BitVec('dt:%s:%d@%d' % (n, len(aux), k), 64)
                 aux['dt%d' % len(aux)] = dv
                 nt = S['now'] + dv
-                b.append(z3.UGE(nt, S['now']))
+                b.append(z3.ULE(dv, bv(1 << 40)))
                 S['now'] = nt
                 b.append(ev.res['t'] == nt)
             elif kind == 'spawn':
@@ -558,6 +561,11 @@ class Encoder:
         self.aux = [dict() for _ in range(K + 1)]
         cons = self.cons
         cons += self.initial(self.S[0])
+        for t in self.threads:
+            for tr in t.trees:
+                cons += list(tr.assumptions.values())
+        # the clock never wraps inside the bound: start and every advance are below 2^40 ns (~18 min) -- stated bound
+        cons.append(z3.ULE(self.S[0]['now'], bv(1 << 40)))
         ncmd = len(self.cmds)
         STUTTER = ncmd
         self.cmdvar = [z3.BitVec('cmd@%d' % k, 16) for k in range(K)]
@@ -570,7 +578,7 @@ class Encoder:
             # time advances at the start of the step
             Sin = dict(S0)
             nowp = S0['now'] + self.adv[k]
-            cons.append(z3.UGE(nowp, S0['now']))
+            cons.append(z3.ULE(self.adv[k], bv(1 << 40)))
             Sin['now'] = nowp
             updates = {name: [] for name in S0}
             for c in self.cmds:
